@@ -6,7 +6,7 @@ for f in sorted(glob.glob("/verif/seeded/C*/meta.json")):
     m = json.load(open(f))
     det = ", ".join(m.get("detected_by") or []) or "**not detected**"
     needs = m["needs_to_manifest"].replace("|", "/")
-    rows.append("| %s | %s | %s | %s | %s |" % (m["id"], m["breaks_property"], ", ".join(m["files_changed"]), needs, det))
+    rows.append("| %s | %s | %s | %s | %s |" % (m["id"], m["breaks_property"], ", ".join(x[2:] if x.startswith("b/") else x for x in m["files_changed"]), needs, det))
 head = """# Seeded changes (independent sub-agents, property text only)
 
 Each directory holds patch.diff, the demonstration, notes.md and meta.json. `tools/seedverify.sh` confirmed every one (applies at HEAD, builds, pinned suite passes, demo passes without / fails with the patch); `tools/seedrun.sh` / `tools/seedsweep.sh` run the quick tier against a scratch worktree with the patch. Letters a-j: rounds 1-5; k, l: round 6.
